@@ -29,7 +29,7 @@ INVARIANT LawUntouched
 INVARIANT LawSpellings
 INVARIANT LawNoMacros
 INVARIANT LawObjectOnly
-INVARIANT LawUnionHidesMore
+INVARIANT LawNestedHidesMore
 INVARIANT TypeOK
 INVARIANT StackShape
 INVARIANT OneGroup
